@@ -164,7 +164,9 @@ pub fn read_step<const LEN: usize, const RP: usize, const K: usize, const CANCEL
         buffer[i] = pre[i];
         i += 1;
     }
-    let mut conn = ReadConnection::verif_from_parts(ScriptRead::new(steps, K), buffer, RP, 0, 3);
+    // K scripted steps plus the end-of-stream poll; anything beyond is outside the bound.
+    crate::sock::set_read_poll_limit(K + 1);
+    let mut conn = ReadConnection::verif_from_parts(ScriptRead::new(&steps, K), buffer, RP, 0, 3);
 
     let max_polls = K + 1;
     let mut polls = 0;
@@ -251,7 +253,7 @@ pub fn read_step_buffered<const LEN: usize, const RP: usize, const MP: usize>(nd
         buffer[i] = nd.u8();
         i += 1;
     }
-    let mut conn = ReadConnection::verif_from_parts(ScriptRead::new(steps, 1), buffer, RP, MP, 3);
+    let mut conn = ReadConnection::verif_from_parts(ScriptRead::new(&steps, 1), buffer, RP, MP, 3);
     let r = {
         let fut = conn.verif_read_from_socket();
         let mut fut = core::pin::pin!(fut);
@@ -295,8 +297,9 @@ pub fn cancel_relational<const LEN: usize, const RP: usize, const K: usize>(nd: 
             buffer[i] = pre[i];
             i += 1;
         }
-        ReadConnection::verif_from_parts(ScriptRead::new(steps, K), buffer, RP, 0, 3)
+        ReadConnection::verif_from_parts(ScriptRead::new(&steps, K), buffer, RP, 0, 3)
     };
+    crate::sock::set_read_poll_limit(2 * (K + 1));
     let mut a = mk(&pre);
     let mut b = mk(&pre);
     let max_polls = K + 1;
@@ -359,4 +362,172 @@ pub fn cancel_relational<const LEN: usize, const RP: usize, const K: usize>(nd: 
     cover!(nd, cancels > 0 && oa == Outcome::Ok, "frame completed after a cancelled receive");
     core::mem::forget(a);
     core::mem::forget(b);
+}
+
+// ------------------------------------------------------------------------------------------
+// Layer 2: frames end to end through the real `read_message` (transport read + frame boundary +
+// serde_json decode), with symbolic frame *content*.
+
+/// Reference: is `s` (no NUL inside) a JSON document of shape `u8`? `ws* int ws*` with
+/// `int = 0 | [1-9][0-9]*` and value ≤ 255 (RFC 8259 number without fraction/exponent).
+pub fn ref_u8_doc(s: &[u8]) -> Option<u8> {
+    let ws = |b: u8| matches!(b, b' ' | b'\t' | b'\n' | b'\r');
+    let mut i = 0;
+    while i < s.len() && ws(s[i]) {
+        i += 1;
+    }
+    let start = i;
+    let mut v: u32 = 0;
+    while i < s.len() && s[i].is_ascii_digit() {
+        v = v * 10 + (s[i] - b'0') as u32;
+        if v > 255 {
+            return None;
+        }
+        i += 1;
+    }
+    let digits = i - start;
+    if digits == 0 || (digits > 1 && s[start] == b'0') {
+        return None;
+    }
+    while i < s.len() && ws(s[i]) {
+        i += 1;
+    }
+    if i == s.len() {
+        Some(v as u8)
+    } else {
+        None
+    }
+}
+
+#[derive(Clone, Copy, PartialEq, Debug)]
+enum Got {
+    Val(u8),
+    DecodeErr,
+    Eof,
+    Other,
+    Pending,
+}
+
+fn recv_u8(conn: &mut ReadConnection<ScriptRead>) -> Got {
+    let r = {
+        let fut = conn.verif_read_message::<u8>();
+        let mut fut = core::pin::pin!(fut);
+        poll_once(fut.as_mut())
+    };
+    match r {
+        Poll::Pending => Got::Pending,
+        Poll::Ready(Ok(v)) => Got::Val(v),
+        Poll::Ready(Err(e)) => {
+            let g = match &e {
+                zlink_core::Error::Json(_) => Got::DecodeErr,
+                zlink_core::Error::UnexpectedEof => Got::Eof,
+                _ => Got::Other,
+            };
+            core::mem::forget(e);
+            g
+        }
+    }
+}
+
+/// Two frames `F1 NUL F2 NUL` with F1 = N1 and F2 = N2 arbitrary non-NUL bytes (N1 + N2 ≤ 5),
+/// delivered in one read (CUT = 0) or cut into two reads after CUT bytes, then end of stream.
+/// Three receives must yield: the verdict on F1, the verdict on F2 — each what the reference
+/// says about that frame alone — and end of stream.
+pub fn recv_frames<const N1: usize, const N2: usize, const CUT: usize>(nd: &mut Nd) {
+    let total = N1 + N2 + 2;
+    let mut stream = [0u8; CHUNK];
+    let mut i = 0;
+    while i < N1 + N2 {
+        let b = nd.u8();
+        nd.assume(b != 0);
+        let at = if i < N1 { i } else { i + 1 };
+        stream[at] = b;
+        i += 1;
+    }
+    // stream[N1] and stream[N1 + N2 + 1] stay NUL
+    let mut steps = [Step::Eof; STEPS];
+    let nsteps;
+    if CUT == 0 {
+        steps[0] = Step::Data { n: total, bytes: stream };
+        nsteps = 1;
+    } else {
+        let mut second = [0u8; CHUNK];
+        let mut j = 0;
+        while j + CUT < total {
+            second[j] = stream[CUT + j];
+            j += 1;
+        }
+        steps[0] = Step::Data { n: CUT, bytes: stream };
+        steps[1] = Step::Data { n: total - CUT, bytes: second };
+        nsteps = 2;
+    }
+    crate::sock::set_read_poll_limit(nsteps + 1);
+    let mut conn = ReadConnection::verif_from_parts(ScriptRead::new(&steps, nsteps), vec![0u8; STEP], 0, 0, 3);
+    let e1 = ref_u8_doc(&stream[..N1]);
+    let e2 = ref_u8_doc(&stream[N1 + 1..N1 + 1 + N2]);
+    let want = |e: Option<u8>| match e {
+        Some(v) => Got::Val(v),
+        None => Got::DecodeErr,
+    };
+    let g1 = recv_u8(&mut conn);
+    assert!(g1 == want(e1), "C01.first_frame_yields_its_own_result");
+    let g2 = recv_u8(&mut conn);
+    assert!(g2 == want(e2), "C01.second_frame_unaffected_by_the_first");
+    let g3 = recv_u8(&mut conn);
+    assert!(g3 == Got::Eof, "C01.end_of_stream_after_all_frames");
+    cover!(nd, e1.is_none() && e2.is_some(), "bad frame followed by a good one");
+    if N1 >= 2 {
+        cover!(nd, e1.is_some() && stream[N1 - 1] == b' ', "padded frame followed by another");
+    }
+    core::mem::forget(conn);
+}
+
+/// Development probe (not registered for any property): cost of one read step.
+pub fn read_probe<const PEND: bool>(nd: &mut Nd) {
+    let steps = any_script(nd, 1, PEND);
+    let mut sr = ScriptRead::new(&steps, 1);
+    sr.cut_after_script = true;
+    let mut conn = ReadConnection::verif_from_parts(sr, vec![0x55u8; 8], 0, 0, 3);
+    let r = {
+        let fut = conn.verif_read_from_socket();
+        let mut fut = core::pin::pin!(fut);
+        let mut r = poll_once(fut.as_mut());
+        if PEND && r.is_pending() {
+            r = poll_once(fut.as_mut());
+        }
+        r
+    };
+    let (_buf, read_pos, _) = conn.verif_parts();
+    let got = match &r {
+        Poll::Ready(r) => classify(r),
+        Poll::Pending => Outcome::Pending,
+    };
+    core::mem::forget(r);
+    assert!(read_pos <= 8, "X.probe");
+    cover!(nd, got == Outcome::Ok, "ok");
+    core::mem::forget(conn);
+}
+
+/// Development probes: which symbolic ingredient keeps the read loop from being bounded in symex.
+pub fn read_probe2<const V: usize>(nd: &mut Nd) {
+    let mut steps = [Step::Eof; STEPS];
+    let mut bytes = [0x41u8; CHUNK];
+    let n = match V {
+        0 => { bytes[2] = 0; 3 }                       // concrete, frame complete
+        1 => 3,                                       // concrete, frame incomplete, then EOF
+        2 => { bytes[0] = nd.u8(); bytes[1] = nd.u8(); bytes[2] = nd.u8(); 3 } // symbolic bytes
+        _ => nd.range(1, 8),                          // symbolic length, concrete bytes
+    };
+    steps[0] = Step::Data { n, bytes };
+    crate::sock::set_read_poll_limit(2);
+    let mut conn = ReadConnection::verif_from_parts(ScriptRead::new(&steps, 1), vec![0x55u8; 8], 0, 0, 3);
+    let r = {
+        let fut = conn.verif_read_from_socket();
+        let mut fut = core::pin::pin!(fut);
+        poll_once(fut.as_mut())
+    };
+    let (_buf, read_pos, _) = conn.verif_parts();
+    core::mem::forget(r);
+    assert!(read_pos <= 8, "X.probe");
+    core::mem::forget(conn);
 }
